@@ -139,6 +139,8 @@ def _run_task(i):
         d = res.asdict()
         d["obligation"] = prop + "/" + ob.name
         d["expect_fail"] = bool((ob.info or {}).get("canary"))
+        if (ob.info or {}).get("detail"):
+            d["detail"] = str(ob.info["detail"])[:3000]
         if getattr(res, "agree", None):
             d["agree"] = res.agree
         if res.status == "sat" and not d["expect_fail"]:
